@@ -96,7 +96,8 @@ def three_d(out, names, tmp, only=None):
     from rnapolis.tertiary import Mapping2D3D
 
     for name in names:
-        path = os.path.join(TESTS, name)
+        path = name if os.path.isabs(name) else os.path.join(TESTS, name)
+        name = os.path.basename(name)
         key = "3d:" + name
         if only and not key.startswith(only):
             continue
@@ -199,6 +200,28 @@ def mapping_conflicts(out, tmp, only=None):
         guarded(out, key + ":adapter", lambda: run_main(adapter, [path, "--external", ext, "--tool", "fr3d", "-a", "-c", tmp + "/y.csv", "-j", tmp + "/y.json"], [tmp + "/y.csv", tmp + "/y.json"]))
 
 
+def generated_inputs(tmp):
+    """Files derived from 1ATO.pdb in which every residue has an unrecognisable name (so that the one-letter code is guessed from the atoms) and
+    has lost a class of base atoms, which makes several bases fit equally well: the guess must not depend on the interpreter."""
+    from mc import corpus, enumio
+
+    base = corpus.table("1ATO.pdb")
+    out = []
+    for tag, strip in (("none", ()), ("no-N4-O4", ("N4", "O4")), ("no-exocyclic", ("N4", "O4", "N6", "O6", "N2", "O2")), ("ring-only", ("N4", "O4", "N6", "O6", "N2", "O2", "N7", "C8", "N9"))):
+        t = [dict(a) for a in base if a["name"] not in strip]
+        names = {}
+        for a in t:
+            k = (a["chain"], a["resseq"], a["icode"])
+            a["resname"] = names.setdefault(k, "M%02d" % (len(names) % 100))
+        for k, a in enumerate(t):
+            a["serial"] = k + 1
+        path = os.path.join(tmp, "gen-1ATO-%s.pdb" % tag)
+        with open(path, "w") as f:
+            f.write(enumio.emit_pdb(t))
+        out.append(path)
+    return out
+
+
 def main():
     tier = sys.argv[1] if len(sys.argv) > 1 else "quick"
     only = sys.argv[2] if len(sys.argv) > 2 else None
@@ -208,7 +231,7 @@ def main():
     out = {}
     tmp = tempfile.mkdtemp(prefix="verif-battery-")
     try:
-        names = SMALL + (MORE if tier == "thorough" else [])
+        names = SMALL + (MORE if tier == "thorough" else []) + generated_inputs(tmp)
         if reverse:
             # same inputs, processed in the opposite order: an output must not depend on what the interpreter processed before
             three_d(out, names[::-1], tmp, only)
